@@ -23,7 +23,7 @@ ASSUMPTIONS = [
     'the dispatcher thread is the only caller of the dispatch loop',
     'user callbacks are opaque; only in-library mutators of the registration list are considered',
 ]
-FLOORS = {'R1': 2, 'R2': 2, 'R3': 1, 'R4': 5, 'R5': 3, 'R6': 3}
+FLOORS = {'R1': 2, 'R2': 2, 'R3': 1, 'R4': 5, 'R5': 3, 'R6': 4, 'R7': 2}
 
 SNAPSHOT_CALLS = ('list', 'tuple', 'sorted', 'copy.copy', 'copy')
 
@@ -179,6 +179,10 @@ def check(ctx):
             ok = keys.get(field) == par and par in params
             ctx.inst('R4', rm, 'remove-eq:' + field, ok, 'an entry may be dropped only if entry.%s == %s; equalities that hold for a dropped entry: %s' % (field, par, keys))
 
+    # ---- R7: the library's own all-packet callback cannot raise on a well-formed table (shared with C10.R4) ------
+    from .c10 import pattern_table_rules
+    pattern_table_rules(ctx, 'R7')
+
     # ---- R5: one receive / one fan-out / one dispatch per iteration ---------
     wl = [n for n in g.nodes if n.kind == 'while']
     ctx.need(len(wl) == 1, 'run(): expected exactly one while loop')
@@ -223,6 +227,20 @@ def check(ctx):
     ctx.inst('R6', add, 'container-order', okl, 'fields %s are filled with %s' % (fields, got))
     appended = [c for c in walk_own(add.node) if method_call(c, 'append') and norm(c.func.value) == 'self.cb']
     ctx.inst('R6', add, 'append-order', len(appended) == 1, 'registration must append (arrival order = registration order)')
+    ga = cfg_of(add)
+    apn = [n for n in ga.nodes if appended and any(x is appended[0] for x in (walk_own(n.ast) if n.ast is not None and n.kind == 'stmt' else []))]
+    early = [n for n in ga.nodes if n.kind == 'return' and apn and not ga.dominates(apn[0], n)]
+    okreg = bool(apn)
+    why = 'every registration is recorded'
+    for n in early:
+        # a registration may only be refused as a duplicate of an entry that agrees on all five fields
+        ents = {norm(f.left.value) if isinstance(f.left, ast.Attribute) else norm(f.right.value) for f in ga.facts_at(n) if f.op == '==' and f.pol and
+                (isinstance(f.left, ast.Attribute) or isinstance(f.right, ast.Attribute))}
+        full = any(g_eq_fields(ga.facts_at(n), e, add) == {'callback': 'cb', 'port': 'port', 'channel': 'channel', 'port_mask': 'port_mask', 'channel_mask': 'channel_mask'} for e in ents)
+        if not full:
+            okreg = False
+            why = 'add_header_callback returns at line %d without recording a registration that differs from the existing one (only some of the five fields are compared)' % n.line
+    ctx.inst('R6', add, 'every-distinct-registration-recorded', okreg, why)
     port_registration_rules(ctx, 'R6')
 
 
